@@ -470,7 +470,7 @@ expandfunc(struct macro *m)
 	struct macroarg *arg;
 	struct array str, tok;
 	size_t i, depth, paren;
-	struct token *t;
+	struct token *t, tmp;
 
 	/* read macro arguments */
 	paren = 0;
@@ -500,9 +500,13 @@ expandfunc(struct macro *m)
 				if (p->flags & PARAMSTR)
 					stringize(&str, t);
 			}
-			if (p->flags & PARAMTOK && !expand(t)) {
-				arrayaddbuf(&tok, t, sizeof(*t));
-				++arg[i].ntoken;
+			if (p->flags & PARAMTOK) {
+				/* expand() may pop and free the frame t points into */
+				tmp = *t;
+				if (!expand(&tmp)) {
+					arrayaddbuf(&tok, &tmp, sizeof(tmp));
+					++arg[i].ntoken;
+				}
 			}
 			t = rawnext();
 		}
@@ -630,9 +634,12 @@ next(void)
 {
 	struct token *t;
 
-	do t = rawnext();
-	while (expand(t) || t->kind == TNEWLINE && !(ppflags & PPNEWLINE));
-	tok = *t;
+	do {
+		/* copy first: expand() may pop and free the frame t points into */
+		t = rawnext();
+		if (t != &tok)
+			tok = *t;
+	} while (expand(&tok) || tok.kind == TNEWLINE && !(ppflags & PPNEWLINE));
 	if (tok.kind == TIDENT)
 		keyword(&tok);
 }
